@@ -15,14 +15,11 @@ fn assert_comparison_width(left: usize, n_log: usize) {
         "comparison bit width {n_log} exceeds 64 bits (Goldilocks field elements)"
     );
 
-    let exclusive_upper_bound = if n_log >= usize::BITS as usize {
-        usize::MAX
-    } else {
-        1usize << n_log
-    };
+    // Every `usize` fits a width of `usize::BITS` or more (including `usize::MAX` itself).
+    let fits = n_log >= usize::BITS as usize || left < (1usize << n_log);
 
     assert!(
-        left < exclusive_upper_bound,
+        fits,
         "left constant {left} does not fit in comparison width {n_log} bits"
     );
 }
